@@ -98,3 +98,56 @@ package updown
 //@   before send#2: assert [line.snps] forall(j, 0, len(FR.Seq), implies(resolved(FR.Seq[j]) && (refSeq[j] & FR.Seq[j]) < 16, udLine.snps[count(k, 0, j, resolved(FR.Seq[k]) && (refSeq[k] & FR.Seq[k]) < 16)] == DA[refSeq[j]] + itoa(j+1) + DA[FR.Seq[j]] && udLine.snpsPos[count(k, 0, j, resolved(FR.Seq[k]) && (refSeq[k] & FR.Seq[k]) < 16)] == j+1))
 //@   ensures len(sent(cUDs)) == len(recv(cFR))
 //@   ensures [c18.width] implies(exists(t, 0, len(recv(cFR)), len(recv(cFR)[t].Seq) != len(refSeq)), len(sent(cErr)) >= 1)
+
+//@ # C09: CSV input path
+//@ func headerEqual
+//@   loop 1:
+//@     invariant forall(j, 0, i, a[j] == b[j])
+//@   ensures result == (len(a) == len(b) && forall(j, 0, len(a), a[j] == b[j]))
+
+//@ func getAmbArr
+//@   loop 1:
+//@     invariant len(A) == 2 * range_i
+//@   ensures implies(result2 == nil, len(result1) % 2 == 0)
+
+//@ func readCSVToUDLList
+//@   loop 1:
+//@     invariant header == (linepos(r) == 0)
+//@     invariant counter == len(LudL)
+//@     invariant implies(!header, len(lines(r)[0]) == 5)
+//@     invariant implies(!header, counter == linepos(r) - 1) && implies(header, counter == 0)
+//@     invariant forall(t, 0, len(LudL), LudL[t].idx == t)
+//@   loop 2:
+//@     invariant len(snpPos) == len(snps) && disjoint(snpPos, LudL) && forall(t, 0, len(LudL), LudL[t].idx == t)
+//@   ensures [rows] implies(result2 == nil, len(result1) == len(lines(r)) - 1 && forall(t, 0, len(result1), result1[t].idx == t))
+//@   ensures [c18.empty] implies(len(lines(r)) == 0, result2 != nil)
+
+//@ func readCSVToUDLChan
+//@   modifies cudL, cErr, cReadDone
+//@   loop 1:
+//@     invariant header == (linepos(r) == 0)
+//@     invariant implies(!header, len(lines(r)[0]) == 5)
+//@     invariant len(sent(cErr)) == 0 && len(sent(cReadDone)) == 0
+//@   loop 2:
+//@     invariant len(sent(cErr)) == 0 && len(sent(cReadDone)) == 0 && len(snpPos) == len(snps)
+//@   ensures [c18.exclusive] len(sent(cErr)) + len(sent(cReadDone)) == 1
+//@   ensures [c18.empty] implies(len(lines(r)) == 0, len(sent(cErr)) == 1)
+
+//@ # C09/C12: restoring file order after parallel conversion. For every arrival order the output is the input sorted by idx.
+//@ func reorderRecords
+//@   modifies cOut, cReorderDone
+//@   requires forall(k, 0, len(recv(cIn)), 0 <= posOf(k) && posOf(k) < len(recv(cIn)) && recv(cIn)[posOf(k)].idx == k)
+//@   requires forall(a, 0, len(recv(cIn)), 0 <= recv(cIn)[a].idx && recv(cIn)[a].idx < len(recv(cIn)) && posOf(recv(cIn)[a].idx) == a)
+//@   loop 1:
+//@     invariant 0 <= counter && counter <= range_i && len(reorderMap) == range_i - counter && len(sent(cOut)) == counter && len(sent(cReorderDone)) == 0
+//@     invariant forallint(k, in(reorderMap, k) == (counter <= k && k < len(recv(cIn)) && posOf(k) < range_i))
+//@     invariant forall(k, counter, len(recv(cIn)), implies(posOf(k) < range_i, reorderMap[k] == recv(cIn)[posOf(k)]))
+//@     invariant forall(k, 0, counter, posOf(k) < range_i && sent(cOut)[k] == recv(cIn)[posOf(k)])
+//@   loop 2:
+//@     invariant 0 <= counter && counter <= len(recv(cIn)) && len(reorderMap) == len(recv(cIn)) - counter && len(sent(cOut)) == counter && len(sent(cReorderDone)) == 0 && n == 1
+//@     invariant forallint(k, in(reorderMap, k) == (counter <= k && k < len(recv(cIn))))
+//@     invariant forall(k, counter, len(recv(cIn)), reorderMap[k] == recv(cIn)[posOf(k)])
+//@     invariant forall(k, 0, counter, sent(cOut)[k] == recv(cIn)[posOf(k)])
+//@     decreases len(recv(cIn)) - counter
+//@   ensures [c12.order] len(sent(cOut)) == len(recv(cIn)) && forall(k, 0, len(recv(cIn)), sent(cOut)[k] == recv(cIn)[posOf(k)] && sent(cOut)[k].idx == k)
+//@   ensures [done] len(sent(cReorderDone)) == 1
